@@ -13,6 +13,10 @@ head/tail of connectSync, the pending branches of both handlers and the wrapper'
 loopback (accept, closed port, black hole, RST, TLS failure / TLS not configured, unresolvable host, stop() under a parked caller, the I/O-thread
 guard, many concurrent callers, and the gated-I/O-thread schedule of seed C04-d); every failing real or real-time case is re-run ALONE before it
 is reported. (iii) `reset udp` / `polu`: the scripted-engine lockstep and DetSched programs also run a Protocol::UDP transport.
+(iv) follow-up of seed C04-e: the engine's own connect-timeout timer is a model step (`timerClose sid` = the Close arm of process() for a
+ConnectTimeout-tagged close: executed only while the connect is pending); Cfg.engine now also requires each TcpEngine timer handler to tag its
+Close with its CloseOrigin (tr_enginecontract), T1_established_closed_only_by_peer_or_close_cmd needs it, untagged_timer_close_refutes_T1 is the
+witness; `real stale <T>` drives the real engine through that race (connectTimeout = T, I/O thread gated, SYN retransmit), `timer <sid>` the model.
 "In time" is PARTIAL: the model proves a bound on the caller's own steps; that the wait lasts the caller's timeout is TIED, not proved:
 skeleton facts on the wait_for argument and the wrapper's sub-interval arithmetic (decide), a DetSched virtual-time monitor
 (single-caller programs: elapsed virtual time <= timeout + 5 ms, <= timeout + 100 ms + 5 ms under the cancellable wrapper) and a
@@ -34,13 +38,17 @@ OBLIGATIONS = [
     {"id": "C04_saturate", "theorem": "Iora.C04.timeouts_saturate", "kind": "proved",
      "statement": "connectSync and connectSyncCancellable saturate their timeout (detail::clampSyncTimeout, 100 years) before wait_for / the deadline computation: milliseconds::max() cannot wrap the deadline into the past (FC03b) (decide)"},
     {"id": "C04_engine", "theorem": "Iora.C04.engine_contract_from_source", "kind": "proved",
-     "statement": "the EngineContract instance regenerated from tcp_engine.hpp/udp_engine.hpp holds: close(sid) of both engines is exactly `return enqueue(close(sid))`, connect() only takes an id and enqueues (ShuttingDown iff the queue refused), the Close arm of process() closes the session it finds (decide); Cfg.engine is computed from it and every theorem below is stated under it"},
+     "statement": "the EngineContract instance regenerated from tcp_engine.hpp/udp_engine.hpp holds: close(sid) of both engines is exactly `return enqueue(close(sid))`, connect() only takes an id and enqueues (ShuttingDown iff the queue refused), the Close arm of process() closes the session it finds and meets each timer origin with its stale-timer guard, each of the three timer handlers enqueues a Close TAGGED with its own CloseOrigin (decide); Cfg.engine is computed from it and every theorem below is stated under it"},
     {"id": "C04_exact", "theorem": "Iora.C04.skeleton_exact", "kind": "proved",
      "statement": "exact-equality pins (review item C): head and tail of connectSync, the pending branches of onConnect/onClose, the statement order of connectSyncCancellable (result before token), timeout assigned only by the clamp, no protocol bypass (decide)"},
     {"id": "C04_T3_closed", "theorem": "Iora.C04.T3_timed_out_attempt_is_closed", "kind": "proved",
      "statement": "the clause as stated: once the engine FIFO is drained, the session of every attempt that returned its own Timeout is CLOSED in the engine"},
     {"id": "C04_T3_contract_needed", "theorem": "Iora.C04.dropped_close_refutes_T3", "kind": "proved",
      "statement": "the engine contract is necessary: with a close() that drops the command for an id not yet in the session table (seed C04-d) the call returns Timeout, the FIFO drains and the session is ESTABLISHED with its abandoned record never erased (witness schedule, decide)"},
+    {"id": "C04_T1_stays_live", "theorem": "Iora.C04.T1_established_closed_only_by_peer_or_close_cmd", "kind": "proved",
+     "statement": "T1 second half, every state and step: an established session stays established unless the step is the peer closing it or the I/O thread popping a Close command for it (none exists for a returned session, T1) - in particular the engine's own connect-timeout timer (timerClose: tagged, ignored by process() once the connect completed) cannot close a session connectSync returned; needs Cfg.engine (timersTagged)"},
+    {"id": "C04_T1_tag_needed", "theorem": "Iora.C04.untagged_timer_close_refutes_T1", "kind": "proved",
+     "statement": "the origin tag of the timer handlers is necessary (seed C04-e): with an untagged timer close the call returns ok 1, nobody closes session 1, yet the transport closes it itself and fires the GLOBAL close callback; under the contract the same schedule leaves it established (witness schedule, decide)"},
     {"id": "C04_udp_refuted", "theorem": "Iora.C04.C04_udp_refuted", "kind": "proved",
      "statement": "FC04b: with the protocol bypass of the unrepaired tree (UDP: return engine->connect directly) C04_udp_statement is false - ok sid is returned before any onConnect"},
     {"id": "C04_udp_gconnect", "theorem": "Iora.C04.C04_udp_refuted_global_connect", "kind": "proved",
@@ -121,8 +129,10 @@ def gen_seq_case(rng):
             ops.append("complete %d" % rng.range(1, nsid))
         elif k < 85 and nsid:
             ops.append("fail %d %d" % (rng.range(1, nsid), rng.range(1, 4)))
-        elif k < 91 and nsid:
+        elif k < 89 and nsid:
             ops.append("peerclose %d" % rng.range(1, nsid))
+        elif k < 91 and nsid:
+            ops.append("timer %d" % rng.range(1, nsid))      # the engine's connect-timeout Close is processed (stale once the connect completed)
         elif k < 95:
             refusing = not refusing          # engine->connect refuses (TcpEngine::connect on a closed queue, e.g. after a plain stop())
             ops.append("refuse %d" % (1 if refusing else 0))
@@ -570,7 +580,7 @@ def gen_real_cases(rng, n):
              "real accept 1500 0 %d keep" % rng.below(2), "real accept 1500 1 0 keep", "real accept 1500 2 %d keep" % rng.below(2),
              "real refused 1000 %d" % rng.below(2), "real blackhole %d 0 -1" % rng.choice([120, 200]),
              "real blackhole %d 1 %d" % (rng.choice([600, 900]), rng.choice([50, 130, 220])), "real stop 2000 %d" % rng.choice([80, 150]),
-             "real ioguard", "real many %d %d" % (rng.choice([4, 6, 9]), rng.choice([150, 300]))]
+             "real ioguard", "real stale %d" % rng.choice([1250, 1300, 1400]), "real many %d %d" % (rng.choice([4, 6, 9]), rng.choice([150, 300]))]
     out = list(fixed)
     while len(out) < n:
         k = rng.below(100)
@@ -746,6 +756,17 @@ def real_monitor(op, line):
         for e in els:
             if e > tmo + 100 + REAL_SLACK_MS:
                 timing.append("T5/in-time: a concurrent connectSync(%d ms) returned after %d ms" % (tmo, e))
+    elif scen == "stale":
+        # seed C04-e: nobody but the transport can close the session here (the peer keeps it open, the application never calls close())
+        if r0 is not None and r0.startswith("ok:"):
+            sid = int(r0[3:])
+            for gs, code in d["gclose_ids"]:
+                if gs == sid:
+                    bad.insert(0, "T1: connectSync returned ok:%d and the transport then closed that session ITSELF (global close callback, %s) - "
+                               "neither the peer nor the application closed it; the engine's stale connect-timeout Close (connectTimeout %s ms) "
+                               "was executed after the connect had completed" % (sid, code, d.get("T")))
+        elif r0 not in ("err:Timeout",):
+            bad.append("L8: connectSync to a slowly accepting target returned %s" % r0)
     elif scen == "ioguard":
         if d.get("threw") != "1" or d.get("returned") != "0":
             bad.append("T5: connectSync called on the I/O thread did not throw logic_error (threw=%s returned=%s): it would deadlock"
@@ -778,6 +799,10 @@ def run_real(ctx, hr, rng, scale, dist):
                 dist["real-ret:%s:%s" % (scen, "ok" if r.startswith("ok:") else r)] = dist.get("real-ret:%s:%s" % (scen, "ok" if r.startswith("ok:") else r), 0) + 1
             if scen == "gated":
                 dist["real-gated:connections-accepted-after-timeout"] = dist.get("real-gated:connections-accepted-after-timeout", 0) + int(d.get("accepted_late", "0"))
+            if scen == "stale":
+                lined = d.get("parked") == "1" and d.get("kernel_connected_before_release") == "1" and d["rets"] and d["rets"][0].startswith("ok:")
+                k_ = "real-stale:schedule-lined-up" if lined else "real-stale:inconclusive(timing)"
+                dist[k_] = dist.get(k_, 0) + 1
             if scen == "stop" and d["rets"]:
                 dist["real-stop:parked-caller-got:" + d["rets"][0]] = dist.get("real-stop:parked-caller-got:" + d["rets"][0], 0) + 1
         ctx.cov["traces_validated_against_impl"] += 1
